@@ -197,6 +197,21 @@ func (o *C09Oracle) Boundary(s *Sim, sn *chain.Snapshot) {
 		return
 	}
 	after := viewOf(sn, o.w.dataId)
+	if o.before.Exists && !after.Exists && len(o.before.Expiry) > 0 {
+		// the one change nobody has to sign: the scheduled end of the paid lifetime - at that height, not before
+		end := o.before.Expiry[0]
+		for _, e := range o.before.Expiry {
+			if e < end {
+				end = e
+			}
+		}
+		if uint64(sn.Height) >= end {
+			o.before = after
+			s.Label("c09-model-reached-its-scheduled-end")
+			return
+		}
+		s.FailT("model-removed-before-its-scheduled-end", "", nil, "h=%d data model %s is gone, its scheduled end of life is %d and nobody authorised asked for its removal", sn.Height, tail(o.w.dataId), end)
+	}
 	if d := diffView(o.before, after); d != "" {
 		s.FailT("unauthorised-request-changed-model-later", "", nil, "h=%d data model %s changed after the unauthorised request without any authorised one:%s", sn.Height, tail(o.w.dataId), d)
 	}
@@ -427,7 +442,18 @@ func c09Property(t *rapid.T) {
 	aborted := RunCase(func() {
 		w := setupC09(t, s, rapid.Bool().Draw(t, "sidVictim"))
 		o.w = w
+		endOfTerm := false
 		n := rapid.IntRange(1, 10).Draw(t, "attempts")
+		if rapid.IntRange(0, 19).Draw(t, "endOfTerm") == 0 {
+			// the attempts are made around the very last blocks of the model's paid lifetime
+			if v := viewOf(s.Last, w.dataId); v.Exists && len(v.Expiry) > 0 && int64(v.Expiry[0]) > s.C.Height+3 {
+				adv := NewAction("advance", 0)
+				adv.Blocks = int64(v.Expiry[0]) - s.C.Height - int64(rapid.IntRange(1, 3).Draw(t, "before"))
+				s.Do(adv)
+				s.Label("c09-at-the-end-of-the-paid-lifetime")
+				endOfTerm = true
+			}
+		}
 		for i := 0; i < n; i++ {
 			if _, ok := s.Last.Metas[w.dataId]; !ok {
 				break
@@ -450,6 +476,12 @@ func c09Property(t *rapid.T) {
 				continue
 			}
 			s.Do(genAdversarial(t, s, w, o, i))
+			if endOfTerm {
+				adv := NewAction("advance", 0)
+				adv.Blocks = 1
+				s.Do(adv)
+				continue
+			}
 			if rapid.IntRange(0, 2).Draw(t, "adv") == 0 {
 				adv := NewAction("advance", 0)
 				adv.Blocks = int64(rapid.IntRange(1, 12).Draw(t, "blocks"))
